@@ -267,6 +267,45 @@ BifApplyRe(name, args, re) ==
               ELSE LET ps == Re!Split(re, a1.cp) IN List([k \in 1..Len(ps) |-> Str(ps[k])])
          [] OTHER -> Unspec
 
+----------------------------------------------------------------------------
+(***************************************************************************)
+(* sort(list, precedes).  The ordering function is one of a few named       *)
+(* comparators the harness binds as the second argument (`cmp`):            *)
+(*   lt  function(x, y) x < y      gt  function(x, y) x > y                 *)
+(*   le  function(x, y) x <= y     ge  function(x, y) x >= y                *)
+(*   a-lt function(x, y) x.a < y.a (contexts ordered by their entry a)      *)
+(*   null function(x, y) null      const function(x, y) true                *)
+(*   arity1 function(x) true       arity3 function(x, y, z) x < y           *)
+(*   notfn (the number 5)          none (no second argument)                *)
+(* The standard asks for "a list of the same elements but ordered according *)
+(* to the sorting function": the verdict is relational - a permutation of   *)
+(* the argument in which no later item strictly precedes an earlier one     *)
+(* (for <= / >=: every earlier item precedes every later one); ties may     *)
+(* stand in any order.  Where the function does not decide every pair       *)
+(* (nulls, mixed kinds, null / constant functions) nothing is demanded.     *)
+(***************************************************************************)
+Prec(cmp, x, y) ==
+  CASE cmp = "lt" -> Lt3(x, y) [] cmp = "gt" -> Lt3(y, x) [] cmp = "le" -> Le3(x, y) [] cmp = "ge" -> Le3(y, x)
+    [] cmp = "a-lt" -> (IF x.k = "ctx" /\ y.k = "ctx" /\ HasKey(x, "a") /\ HasKey(y, "a") THEN Lt3(Get(x, "a"), Get(y, "a")) ELSE Null)
+    [] OTHER -> Null
+CountOf(xs, v) == Cardinality({i \in 1..Len(xs) : xs[i] = v})
+SortJudge(args, cmp, o) ==
+  LET n == Len(args)
+      nullWanted(why) == IF o.k = "null" THEN "ok" ELSE why IN
+  IF o.k = "panic" THEN "the built-in panicked"
+  ELSE IF n # 2 THEN nullWanted("sort with a wrong number of arguments must be null")
+  ELSE IF args[1].k = "null" THEN nullWanted("sort of null must be null")
+  ELSE IF args[1].k # "list" THEN "unspec"                                  \* (a single value as a list of one: not settled)
+  ELSE IF cmp \in {"notfn", "arity1", "arity3"} THEN nullWanted("sort with something else than a function of two parameters must be null")
+  ELSE IF cmp \in {"null", "const"} THEN "unspec"
+  ELSE LET xs == args[1].items IN
+    IF \E i, j \in 1..Len(xs) : i # j /\ Prec(cmp, xs[i], xs[j]).k # "bool" THEN "unspec"
+    ELSE IF o.k # "list" \/ Len(o.items) # Len(xs) THEN "sort must return a list of the same length"
+    ELSE IF \E i \in 1..Len(xs) : CountOf(o.items, xs[i]) # CountOf(xs, xs[i]) THEN "sort must return the same elements"
+    ELSE IF cmp \in {"lt", "gt", "a-lt"} /\ \E i, j \in 1..Len(xs) : i < j /\ Prec(cmp, o.items[j], o.items[i]) = Bool(TRUE) THEN "sort: a later item precedes an earlier one"
+    ELSE IF cmp \in {"le", "ge"} /\ \E i, j \in 1..Len(xs) : i < j /\ Prec(cmp, o.items[i], o.items[j]) # Bool(TRUE) THEN "sort: an earlier item does not precede a later one"
+    ELSE "ok"
+
 ParamNames(name) ==
   CASE name = "substring" -> <<"string", "start position", "length">>
     [] name = "string length" -> <<"string">>
@@ -286,5 +325,6 @@ ParamNames(name) ==
     [] name = "replace" -> <<"input", "pattern", "replacement", "flags">>
     [] name = "split" -> <<"string", "delimiter">>
     [] name = "number" -> <<"from", "grouping separator", "decimal separator">>
+    [] name = "sort" -> <<"list", "precedes">>
     [] OTHER -> <<>>
 =============================================================================
